@@ -15,11 +15,12 @@ import (
 )
 
 type scen struct {
-	g     *caseGen
-	steps []concStep
-	holdN int
-	db    string
-	down  bool
+	g      *caseGen
+	expect []concExpect
+	steps  []concStep
+	holdN  int
+	db     string
+	down   bool
 }
 
 func (s *scen) m(b []byte)       { s.steps = append(s.steps, concStep{T: "m", H: hx(b)}) }
@@ -41,6 +42,9 @@ func (s *scen) seedMany(n int) {
 		s.seed(s.key(i), compact(s.g.jsonObj(0)))
 	}
 }
+func (s *scen) expectNote(sub, wr string, i int) {
+	s.expect = append(s.expect, concExpect{Sub: hx([]byte(sub)), Wr: hx([]byte(wr)), Key: hx([]byte(s.key(i)))})
+}
 func (s *scen) write(op string, i int) {
 	s.m(append(bars(op, s.g.pick("create", "update"), s.key(i), ""), append([]byte{'J'}, compact(s.g.jsonObj(0))...)...))
 }
@@ -51,7 +55,7 @@ func concCase(r *hxlib.Run, emit func(hxlib.Case)) {
 	g.dbs = []string{s.db}
 	rng := g.rng
 	q := "query " + s.db + ":k"
-	pattern := rng.Intn(11)
+	pattern := rng.Intn(13)
 	name := ""
 	switch pattern {
 	case 0: // cancel vs running query
@@ -101,10 +105,14 @@ func concCase(r *hxlib.Run, emit func(hxlib.Case)) {
 		h := s.hold("dbapi:query-next", "QS", 1+rng.Intn(3))
 		s.m(bars("QS", "qsub", q))
 		s.await(h)
+		withCancel := rng.Intn(3) == 0
 		for i := 0; i < 1+rng.Intn(5); i++ {
 			s.write(fmt.Sprint("w", i), 100+i)
+			if !withCancel {
+				s.expectNote("QS", fmt.Sprint("w", i), 100+i) // the subscription was registered before the query started
+			}
 		}
-		if rng.Intn(3) == 0 {
+		if withCancel {
 			s.m(bars("QS", "cancel")) // cancels the query part only: the subscription is not registered in api.subs yet
 		}
 		s.sleep(rng.Intn(300))
@@ -200,6 +208,22 @@ func concCase(r *hxlib.Run, emit func(hxlib.Case)) {
 		}
 		s.sleep(500 + rng.Intn(3000))
 		s.release(h)
+	case 11, 12: // a registered subscription must be told about every matching write
+		name = "sub-then-writes"
+		kind := g.pick("sub", "qsub")
+		if kind == "qsub" {
+			s.seedMany(rng.Intn(5))
+		}
+		s.m(bars("S", kind, q))
+		s.sync()
+		for i := 0; i < 1+rng.Intn(8); i++ {
+			k := 50 + rng.Intn(4)
+			s.write(fmt.Sprint("w", i), k)
+			s.expectNote("S", fmt.Sprint("w", i), k)
+			if rng.Intn(3) == 0 {
+				s.sync()
+			}
+		}
 	default: // cancel storms on a live subscription
 		name = "cancel-storm"
 		s.m(bars("S", "sub", q))
@@ -215,7 +239,7 @@ func concCase(r *hxlib.Run, emit func(hxlib.Case)) {
 		}
 	}
 	g.kind = "conc:" + name
-	sc := concScenario{Seed: rng.Int63(), YieldP: []int{0, 100, 400, 800}[rng.Intn(4)], Steps: s.steps, Down: s.down}
+	sc := concScenario{Seed: rng.Int63(), YieldP: []int{0, 100, 400, 800}[rng.Intn(4)], Steps: s.steps, Down: s.down, Expect: s.expect}
 	b, _ := json.Marshal(sc)
 	line := "conc " + string(b)
 	c := ensureChild()
